@@ -117,7 +117,8 @@ pub(crate) const ROC_INVERSE_ERA_IDENTIFIERS: [TinyAsciiStr<19>; 2] = [
 // NOTE: The below currently might not align 100% with ICU4X.
 // TODO: Update to align with ICU4X depending on any Era updates.
 pub(crate) const ISO_ERA: EraInfo = valid_era!("default", i32::MIN..=i32::MAX);
-pub(crate) const BUDDHIST_ERA: EraInfo = valid_era!("buddhist", i32::MIN..=i32::MAX);
+// NOTE: the name is the era code handed to the calendrical code, which knows this era as "be".
+pub(crate) const BUDDHIST_ERA: EraInfo = valid_era!("be", i32::MIN..=i32::MAX);
 pub(crate) const CHINESE_ERA: EraInfo = valid_era!("chinese", i32::MIN..=i32::MAX);
 pub(crate) const COPTIC_ERA: EraInfo = valid_era!("coptic", 1..=i32::MAX);
 pub(crate) const COPTIC_INVERSE_ERA: EraInfo = valid_era!("coptic-inverse", 1..=i32::MAX);
@@ -125,8 +126,9 @@ pub(crate) const DANGI_ERA: EraInfo = valid_era!("dangi", i32::MIN..=i32::MAX);
 pub(crate) const ETHIOPIC_ERA: EraInfo = valid_era!("ethiopic", 1..=i32::MAX);
 pub(crate) const ETHIOPIC_ETHIOAA_ERA: EraInfo = valid_era!("ethioaa", i32::MIN..=5500);
 pub(crate) const ETHIOAA_ERA: EraInfo = valid_era!("ethioaa", i32::MIN..=i32::MAX);
-pub(crate) const GREGORY_ERA: EraInfo = valid_era!("gregory", 1..=i32::MAX);
-pub(crate) const GREGORY_INVERSE_ERA: EraInfo = valid_era!("gregory-inverse", 1..=i32::MAX);
+// NOTE: the calendrical code knows the two Gregorian eras as "ce" and "bce".
+pub(crate) const GREGORY_ERA: EraInfo = valid_era!("ce", 1..=i32::MAX);
+pub(crate) const GREGORY_INVERSE_ERA: EraInfo = valid_era!("bce", 1..=i32::MAX);
 pub(crate) const HEBREW_ERA: EraInfo = valid_era!("hebrew", i32::MIN..=i32::MAX);
 pub(crate) const INDIAN_ERA: EraInfo = valid_era!("indian", i32::MIN..=i32::MAX);
 pub(crate) const ISLAMIC_ERA: EraInfo = valid_era!("islamic", i32::MIN..=i32::MAX);
